@@ -125,9 +125,11 @@ func (m *vMon) ReassemblyComplete(g []*auparse.AuditMessage) {
 			vAssert(!(m.ord(o.seq) < m.ord(in.seq)), "C02/smaller-event-left-buffered")
 		}
 	}
-	// C03 ghost accounting
-	inOrder := vAnd(m.have, m.ord(in.seq) > m.ord(m.last))
-	gap := vIf(inOrder, uint64(m.ord(in.seq)-m.ord(m.last)-1), 0)
+	// C03 ghost accounting. "In order" is the property's own roll-over rule: s comes after L when
+	// the distance (s - L) mod 2^32 lies in [1, 2^24-1]; within one 2^24 window this is ord(s) > ord(L).
+	d := in.seq - m.last
+	inOrder := vAnd(m.have, vAnd(d != 0, d <= 1<<24-1))
+	gap := vIf(inOrder, uint64(d-1), 0)
 	m.expLost += gap
 	m.last = uint32(vIf(vOr(!m.have, inOrder), uint64(in.seq), uint64(m.last)))
 	m.have = true
